@@ -99,9 +99,10 @@ func Leftover(t *Target, kind string, rng *rand.Rand) bool {
 		writeFile(filepath.Join(dir, "tile/data", fmt.Sprintf(".001%d", rng.Int31())), nil, 0o600, false)
 		writeFile(filepath.Join(dir, fmt.Sprintf(".checkpoint%d", rng.Int31())), randBytes(rng, 10), 0o600, false)
 	case "dot":
-		writeFile(filepath.Join(dir, "tile/.DS_Store"), randBytes(rng, 8), 0o644, false)
 		writeFile(filepath.Join(dir, ".hidden"), nil, 0o644, false)
 		writeFile(filepath.Join(dir, "tile/0/.keep"), nil, 0o644, false)
+	case "tiledot": // a file where the tool expects the directory of a level
+		writeFile(filepath.Join(dir, "tile/.DS_Store"), randBytes(rng, 8), 0o644, false)
 	case "unrelated":
 		writeFile(filepath.Join(dir, "tile/0/README"), []byte("hello"), 0o644, false)
 		writeFile(filepath.Join(dir, "notes.txt"), []byte("hello"), 0o644, false)
@@ -155,6 +156,14 @@ func Leftover(t *Target, kind string, rng *rand.Rand) bool {
 		Plant(dir, mode, TileID{"hash", 7, 0, 5}, rng)
 	case "symlink": // a symbolic link leaving the directory
 		os.Symlink("../../decoy/tile/0", filepath.Join(dir, "tile/zz-link"))
+		// and one where the tool recurses (tile index 1000 and up)
+		root := filepath.Dir(dir)
+		if mode == "mirror" {
+			root = filepath.Dir(filepath.Dir(root))
+		}
+		if !exists(filepath.Join(dir, "tile/0/x001")) {
+			os.Symlink(filepath.Join(root, "decoy/tile/0"), filepath.Join(dir, "tile/0/x001"))
+		}
 	default:
 		panic("unknown leftover " + kind)
 	}
